@@ -127,7 +127,14 @@ def agreement(ctx, p):
                                                                 ('multi', ['table::Entry::<B>::is_multi']), ('size', ['table::Entry::<B>::read_size']))}
         pv, pe = prof(vv), prof(ve)
         ctx.ob(p + 'g value-validator-mirrors-applier', 'K9-agreement', vv.path,
-               'ValueTable::validate_plan and enact_plan make the same header/tombstone/multipart/size decisions and read the same number of log pieces', pv == pe and pv['read'] == 5, 'validator %s applier %s' % (pv, pe))
+               'ValueTable::validate_plan and enact_plan both decide header / tombstone / multipart / sized entry (each consults is_tombstone, is_multi and read_size and reads from the log)',
+               all(pv[k] >= 1 and pe[k] >= 1 for k in pv), 'validator %s applier %s' % (pv, pe))
+        # the multipart interpretation applies to multipart tables only - on BOTH sides (a validator that takes a marker-like
+        # size word of a fixed-size table for a multipart part accepts a record the applier reads as a 32 KiB entry)
+        for nm, b in (('validator', vv), ('applier', ve)):
+            for i, s2 in enumerate(b.call_sites('table::Entry::<B>::is_multi')):
+                lib.cond_guarded(ctx, p + 'g2 multipart-test-only-for-multipart-tables %s #%d' % (nm, i), b, s2,
+                                 'is_multi is consulted only depending on self.multipart (same condition in validator and applier)', fields=['.ValueTable.multipart'])
         reads = vv.call_sites("log::LogReader::<'a>::read")
         last = [r for r in reads if any(s in vv.reaches(x) and r in vv.reaches(s) for x in [0] for s in vv.call_sites('table::Entry::<B>::read_size'))]
         for r in last:
